@@ -258,8 +258,8 @@ func (c *Classifier) hasValidText(e *html.Node) bool {
 func (c *Classifier) hasOneOfElements(elements []*html.Node, tags map[string]bool) bool {
 	for _, element := range elements {
 		tagName := dom.TagName(element)
-		if value, exist := tags[tagName]; exist {
-			return !value || c.hasValidText(element)
+		if value, exist := tags[tagName]; exist && (!value || c.hasValidText(element)) {
+			return true
 		}
 	}
 	return false
